@@ -243,17 +243,24 @@ class Ctx:
         # accepted here (fewer facts than the full query -> still valid); anything else
         # goes to the full discharge with all hint instances.
         t0 = time.time()
+        depth0 = self.solver.num_scopes()
+        proved_rf = False
         try:
             from . import ratfun
-            if ratfun.prove(self.solver, goal):
-                ob.status = "proved"
-                ob.backend = "ratfun"
-                ob.time_s = time.time() - t0
-                self.solver.set("timeout", FEAS_TIMEOUT_MS)
-                return
-            self.solver.set("timeout", FEAS_TIMEOUT_MS)
+            proved_rf = ratfun.prove(self.solver, goal)
         except Exception:
-            self.solver.set("timeout", FEAS_TIMEOUT_MS)
+            proved_rf = False
+        if self.solver.num_scopes() != depth0:
+            while self.solver.num_scopes() > depth0:
+                self.solver.pop()
+            self.scope_leaks = getattr(self, "scope_leaks", 0) + 1
+            proved_rf = False          # a verdict reached with a leaked scope is not trusted
+        self.solver.set("timeout", FEAS_TIMEOUT_MS)
+        if proved_rf:
+            ob.status = "proved"
+            ob.backend = "ratfun"
+            ob.time_s = time.time() - t0
+            return
         t0 = time.time()
         try:
             from .proxies import hint_facts
@@ -273,6 +280,12 @@ class Ctx:
                 return
         except z3.Z3Exception:
             pass
+        finally:
+            if self.solver.num_scopes() != depth0:
+                # a scope left open would turn a goal's hypothesis into a hypothesis of every later query
+                while self.solver.num_scopes() > depth0:
+                    self.solver.pop()
+                self.scope_leaks = getattr(self, "scope_leaks", 0) + 1
         import os as _os
         if _os.environ.get("VERIF_DUMP") and _os.environ["VERIF_DUMP"] in oid:
             sd = z3.Solver()
